@@ -216,6 +216,9 @@ pub struct LadderCase {
     /// address-space limit for the child in KiB (0 = none)
     #[serde(default)]
     pub mem_kb: u64,
+    /// stack limit for the child in KiB (0 = the default, normally 8 MiB)
+    #[serde(default)]
+    pub stack_kb: u64,
 }
 
 pub fn ladder_html(pattern: usize, depth: usize) -> String {
@@ -259,7 +262,14 @@ pub fn check_ladder(case: &LadderCase, st: &mut Stats) -> Result<(), String> {
         if case.overflow { "1" } else { "0" },
         case.width
     );
-    let script = if case.mem_kb > 0 { format!("ulimit -v {}; exec {}", case.mem_kb, inner) } else { format!("exec {}", inner) };
+    let mut script = String::new();
+    if case.mem_kb > 0 {
+        script.push_str(&format!("ulimit -v {}; ", case.mem_kb));
+    }
+    if case.stack_kb > 0 {
+        script.push_str(&format!("ulimit -s {}; ", case.stack_kb));
+    }
+    script.push_str(&format!("exec {}", inner));
     let mut child = std::process::Command::new("/bin/sh")
         .args(["-c", &script])
         .stdout(std::process::Stdio::piped())
@@ -322,6 +332,11 @@ fn ladder_items(ctx: &Ctx) -> Vec<LadderCase> {
                     }
                 }
             };
+            if overflow && !cheap {
+                // with overflow allowed every level of a prefixed block widens the output: time grows
+                // super-linearly with depth, so these variants stop at 10^4 levels
+                depths.retain(|d| *d <= 10_000);
+            }
             if open == "<sup>" {
                 // KF-C01-deep-sup: quadratic memory (every piece carries its whole annotation stack)
                 depths.retain(|d| *d <= 10_000);
@@ -334,10 +349,14 @@ fn ladder_items(ctx: &Ctx) -> Vec<LadderCase> {
             for d in depths {
                 // generous: measured times are < 1/30 of these limits on this machine
                 let timeout_s = if d >= 30_000 { 3600 } else { 600 };
-                v.push(LadderCase { pattern: p, depth: d, overflow, width: if overflow { 10 } else { 80 }, timeout_s, mem_kb: 24 << 20 });
+                v.push(LadderCase { pattern: p, depth: d, overflow, width: if overflow { 10 } else { 80 }, timeout_s, mem_kb: 24 << 20, stack_kb: 0 });
             }
         }
     }
+    // regression (fixed): dropping an unrendered deep tree must not need stack per nesting level -
+    // a 1 MiB stack is enough for 4000 levels of <ul><li><blockquote> that end in TooNarrow
+    v.push(LadderCase { pattern: 18, depth: 4_000, overflow: false, width: 80, timeout_s: 600, mem_kb: 4 << 20, stack_kb: 1024 });
+    v.push(LadderCase { pattern: 8, depth: 2_000, overflow: false, width: 80, timeout_s: 600, mem_kb: 4 << 20, stack_kb: 1024 });
     v
 }
 
